@@ -26,7 +26,7 @@ from . import common
 
 SPEC = {
     "lean": ["SnowModel.Props.C15", "SnowModel.Props.C15Bridge"],
-    "pins": ["Schedule"],
+    "pins": ["Schedule", "Memorable", "MemoState"],
     "harness": "harness.c15",
     "technique": "Lean 4 theorems over a declarative RFC 5545 subset (calendar round trips, sorted/sound/complete occurrence enumeration, rruleset algebra, keyword wiring) + pins of the keyword wiring regenerated from the AST + three-way differential (plugin / Lean model / dateutil built directly from the keywords)",
     "level_text": "Machine-checked proofs about the model of the recurrence (proleptic Gregorian calendar round trips; occurrences strictly increasing, sound and complete w.r.t. the declarative `occursDay`/time-set predicate for every rule and bound; count = prefix; include/exclude = sorted de-duplicated set algebra; every keyword reaches the same-named rrule argument, normalised from the same-named parameter), tied to Schedule.py by a pinned wiring table with bridging lemmas and by differential runs of CalendarRule and end-to-end recipes against the model and against an independent dateutil construction.",
@@ -227,7 +227,7 @@ def yaml_scalar(a):
     return '"' + iso_of(a) + '"'
 
 
-def yaml_event(s, indent):
+def yaml_event(s, indent, formula=None):
     p = s["p"]
     pad = " " * indent
     lines = [f"{pad}Schedule.Event:"]
@@ -247,7 +247,11 @@ def yaml_event(s, indent):
         lines.append(f"{pad2}byweekday: {json.dumps(wd_string(p['byweekday']))}")
     for key in ("include", "exclude"):
         items = s.get(key) or []
-        if len(items) == 1:
+        if formula and items:
+            # the multi-inclusion idiom of examples/schedule/complex_inclusions.recipe.yml: a formula
+            # holding a tuple of dates and `Schedule.Event(...)` calls, inline or through a `var`
+            lines.append(f"{pad2}{key}: " + (("${{" + key + "_v}}") if formula == "var" else yaml_quote(formula_tuple(items))))
+        elif len(items) == 1:
             it = items[0]
             if it["k"] == "set":
                 lines.append(f"{pad2}{key}:")
@@ -259,12 +263,62 @@ def yaml_event(s, indent):
     return lines
 
 
+def yaml_quote(text):
+    assert "'" not in text
+    return "'" + text + "'"
+
+
+def formula_call(s):
+    """`Schedule.Event(freq="yearly", start_date="2000-01-01", count=2, ...)` — keyword order is the
+    insertion order of the case's parameter dict"""
+    p = s["p"]
+    parts = []
+    for k, v in p.items():
+        if k in ("lf", "freq_lower") or v is None:
+            continue
+        if k == "freq":
+            parts.append(f'freq="{v.lower() if p.get("freq_lower") else v}"')
+        elif k == "start":
+            parts.append(f'start_date="{iso_of(v)}"')
+        elif k == "until":
+            parts.append(f'until="{iso_of(v)}"')
+        elif k in ("interval", "count"):
+            parts.append(f"{k}={v}")
+        elif k == "byweekday":
+            parts.append(f'byweekday="{wd_string(v)}"')
+        elif k in INT_KEYS:
+            w = int_value(v, p.get("lf", 1), for_yaml=True)
+            parts.append(f"{k}={w}" if isinstance(w, int) else f'{k}="{w}"')
+        else:
+            raise ValueError(k)
+    if s.get("include") or s.get("exclude"):
+        raise ValueError("formula calls are flat")
+    return "Schedule.Event(" + ", ".join(parts) + ")"
+
+
+def formula_tuple(items):
+    out = []
+    for it in items:
+        if it["k"] == "set":
+            out.append(formula_call(it["set"]))
+        elif it["k"] in ("datestr", "dtstr"):
+            out.append('"' + iso_of(it) + '"')
+        else:
+            raise ValueError("formula items are strings or calls")
+    return "${{(" + ", ".join(out) + ("," if len(out) == 1 else "") + ")}}"
+
+
 def recipe_text(case):
     head = ["- snowfakery_version: 3", "- plugin: snowfakery.standard_plugins.Schedule"]
+    formula = case.get("formula")
+    if formula == "var":
+        for key in ("include", "exclude"):
+            if case["set"].get(key):
+                head += [f"- var: {key}_v", f"  value: {yaml_quote(formula_tuple(case['set'][key]))}"]
     if case["mode"] == "next":
-        body = ["- object: E", f"  count: {case['n']}", "  fields:", "    t:"] + yaml_event(case["set"], 6)
+        body = ["- object: E", f"  count: {case['n']}", "  fields:", "    t:"] + yaml_event(case["set"], 6, formula)
     else:
-        body = ["- object: E", "  for_each:", "    var: ev", "    value:"] + yaml_event(case["set"], 6)
+        body = ["- object: E", "  for_each:", "    var: ev", "    value:"] + yaml_event(case["set"], 6, formula)
         body += ["  fields:", "    t: ${{ev}}"]
     return "\n".join(head + body) + "\n"
 
@@ -612,7 +666,15 @@ def check_cases(cases, rep):
         via_next = case["mode"] == "next"
         nontrivial = real["outcome"] == "ok" and len(real["out"]) >= 2
         rep.case(case, nontrivial=nontrivial)
-        rep.count("kind:" + case["kind"] + ":" + case["mode"])
+        rep.count("kind:" + case["kind"] + ":" + case["mode"] + (":formula-" + case["formula"] if case.get("formula") else ""))
+        if case.get("formula"):
+            for key in ("include", "exclude"):
+                calls = [it for it in case["set"].get(key) or [] if it["k"] == "set"]
+                if len(calls) >= 2:
+                    rep.count("formula:" + key + ":calls>=2")
+                    names = [tuple(k for k in it["set"]["p"] if k not in ("lf", "freq_lower")) for it in calls]
+                    if len(set(names)) == 1:
+                        rep.count("formula:same-keyword-names")
         rep.count("freq:" + p["freq"])
         rep.count("real:" + real["outcome"])
         rep.count("oracle:" + res["oracle"])
@@ -895,6 +957,70 @@ def force_bounded(rng, s):
             force_bounded(rng, it["set"])
 
 
+def gen_formula_case(rng):
+    """include / exclude written as a formula holding a tuple of 2-3 entries: `Schedule.Event(...)`
+    calls that share their keyword names (and order) but differ in values, mixed with plain dates.
+    Every call is a separate `@memorable` evaluation in one context: each must get its own state."""
+    freq = rng.choice(["MONTHLY", "WEEKLY", "DAILY", "DAILY", "YEARLY"])
+    st = rnd_start(rng, utc_bias=1.0)
+    if st.get("off") is None and st["k"] in ("dtobj", "dtstr"):
+        st["off"] = None
+    outer = {"freq": freq, "start": st, "lf": rng.choice([0, 1])}
+    if rng.random() < 0.4:
+        outer["interval"] = rng.choice([1, 2, 3])
+    if rng.random() < 0.3:
+        outer["count"] = rng.choice([3, 6, 12])
+    s = {"p": outer}
+    sa = start_aware(st)
+    step = {"YEARLY": 366, "MONTHLY": 31, "WEEKLY": 7, "DAILY": 1}[freq] * (outer.get("interval") or 1)
+    hms = [sa.hour, sa.minute, sa.second]
+
+    def inner_start(d):
+        if st["k"] in ("date", "datestr"):
+            return {"k": "datestr", "ymd": [d.year, d.month, d.day]}
+        return {"k": "dtstr", "ymd": [d.year, d.month, d.day], "hms": hms, "off": None}
+
+    for key in rng.choice([["include"], ["exclude"], ["include", "exclude"]]):
+        extra = rng.sample(["interval", "bymonthday", "byweekday", "until"], rng.choice([0, 0, 1, 2]))
+        same_names = rng.random() < 0.85
+        items = []
+        for _ in range(rng.choice([2, 2, 3])):
+            if rng.random() < 0.25 and items:
+                d = sa.date() + _dt.timedelta(days=rng.randint(0, 6) * step + rng.choice([0, 0, 1]))
+                items.append({"k": "datestr", "ymd": [d.year, d.month, d.day]})
+                continue
+            if key == "exclude":
+                # meet the outer schedule: same kind of rule, started on one of its days
+                d = sa.date() + _dt.timedelta(days=rng.randint(0, 3)) if freq == "DAILY" else sa.date()
+                q = {"freq": rng.choice([freq, freq, "DAILY"]), "start": inner_start(d), "lf": 1}
+                q["count"] = rng.choice([1, 2, 3, 5])
+            else:
+                d = sa.date() - _dt.timedelta(days=rng.randint(1, 4000)) if rng.random() < 0.5 else sa.date() + _dt.timedelta(days=rng.randint(1, 10 * step))
+                q = {"freq": rng.choice(["YEARLY", "MONTHLY", "WEEKLY", "DAILY"]), "start": inner_start(d), "lf": 1}
+                q["count"] = rng.choice([1, 2, 3])
+            keys = extra if same_names else rng.sample(["interval", "bymonthday", "byweekday", "until"], rng.choice([0, 1]))
+            for k in keys:
+                if k == "interval":
+                    q["interval"] = rng.choice([1, 2, 3, 5])
+                elif k == "bymonthday":
+                    q["bymonthday"] = some(rng, [1, 2, 10, 15, 28, -1], 2)
+                elif k == "byweekday":
+                    q["byweekday"] = [[w, 0] for w in sorted(rng.sample(range(7), rng.randint(1, 3)))]
+                elif k == "until":
+                    u = d + _dt.timedelta(days=rng.randint(0, 800))
+                    q["until"] = {"k": "datestr", "ymd": [u.year, u.month, u.day]}
+            if rng.random() < 0.5:
+                q["freq_lower"] = True
+            items.append({"k": "set", "set": {"p": q}})
+        if not any(it["k"] == "set" for it in items[1:]) and len(items) >= 2:
+            pass
+        s[key] = items
+    mode = rng.choice(["next", "next", "next", "for_each"])
+    if mode == "for_each":
+        force_bounded(rng, s)
+    return {"kind": "recipe", "mode": mode, "n": rng.choice([3, 5, 8, 13]), "formula": rng.choice(["inline", "inline", "var"]), "set": s}
+
+
 def doc_cases():
     """the documentation examples moved to other weeks of the year, plus the known-defect witnesses"""
     out = []
@@ -928,6 +1054,10 @@ def run(ctx, rep, findings):
         "bymonth, +-bymonthday, +-byyearday, plain / n-th / mixed weekdays, byhour, byminute, bysecond, "
         "include / exclude of dates, datetimes and nested events (depth <= 2). Driven through "
         "CalendarRule (next() and iteration) and through end-to-end recipes (field and for_each). "
+        "Formula recipes: include / exclude written as a formula (inline or through a var) holding a tuple "
+        "of 2-3 entries - Schedule.Event(...) calls with the same keyword names and different values, "
+        "mixed with plain dates (snowfakery_version 3; the older dialect rejects any formula containing "
+        "a Schedule.Event call). "
         "Non-trivial: the plugin produced >= 2 values. Distinct = distinct case hash."
     )
     cases = [f["input"] for f in findings if f.get("input")]
@@ -939,6 +1069,8 @@ def run(ctx, rep, findings):
         cases.append(gen_case(ctx.rng, "rule"))
     for _ in range(n_recipe):
         cases.append(gen_case(ctx.rng, "recipe"))
+    for _ in range(ctx.scale(150, 1500, search_factor=2)):
+        cases.append(gen_formula_case(ctx.rng))
     for i in range(0, len(cases), 600):
         check_cases(cases[i : i + 600], rep)
         if ctx.time_left() < 60:
